@@ -439,7 +439,7 @@ BUILTIN_EXC = {
     "OverflowError": "ArithmeticError", "ArithmeticError": "Exception",
     "AssertionError": "Exception", "UnicodeEncodeError": "UnicodeError",
     "UnicodeDecodeError": "UnicodeError",
-    "UnicodeError": "ValueError", "NotImplementedError": "Exception",
+    "UnicodeError": "ValueError", "NotImplementedError": "Exception", "ZoneInfoNotFoundError": "KeyError", "UnknownTimeZoneError": "KeyError",
     "StopIteration": "Exception", "RuntimeError": "Exception",
     "ZeroDivisionError": "ArithmeticError",
 }
@@ -1155,8 +1155,12 @@ class Interp:
                         tag=None if a[0].tag == "pytz-stale-offset" else "pytz-normalized"))
                 raise AbsRaise("AttributeError", name)
             if name == "key":
+                if self.provider == "pytz" and o.flavour == "pytz":
+                    raise AbsRaise("AttributeError", name)      # pytz zones have .zone, not .key
                 return o.key_
-            raise AbsRaise("AttributeError", name)
+            # anything else (private tables of a tz library, utcoffset(), ...) is outside the model:
+            # never answered with a made-up AttributeError
+            raise Unsupported(f"attribute {name} of a tzinfo object")
         if o is None:
             raise AbsRaise("AttributeError", f"'NoneType' object has no attribute {name!r}")
         if isinstance(o, NativeObj):
@@ -1720,7 +1724,45 @@ class Interp:
             return a[1]
         raise AbsRaise("StopIteration", "")
 
+    # ids the modelled tz database holds (two of them differ only in punctuation)
+    known_zone_ids = frozenset({"Europe/Berlin", "America/New_York", "UTC", "Etc/UTC", "Etc/GMT+5", "Etc/GMT-5",
+                                "America/Port-au-Prince", "Z"})
+
     def _native_obj_attr(self, o, name):
+        if o.name == "pytz":
+            if name in ("utc", "UTC"):
+                return TZ("utc", "UTC", "pytz")
+            if name in ("all_timezones", "all_timezones_set", "common_timezones"):
+                return sorted(self.known_zone_ids)
+            if name == "timezone":
+                def ptz(i, a, k):
+                    key = self._str(a[0])
+                    if is_opaque(key):
+                        raise Unsupported("pytz.timezone(<non-concrete name>)")
+                    if key in self.known_zone_ids:
+                        return TZ("utc" if key == "UTC" else "zone", key, "pytz")
+                    raise AbsRaise("UnknownTimeZoneError", key)
+                return Native("pytz.timezone", ptz)
+            if name == "UnknownTimeZoneError":
+                return TypeTok("UnknownTimeZoneError")
+            raise Unsupported(f"pytz.{name}")
+        if o.name == "backports" and name == "zoneinfo":
+            return NativeObj("zoneinfo")
+        if o.name == "zoneinfo":
+            if name == "available_timezones":
+                return Native("available_timezones", lambda i, a, k: set(self.known_zone_ids))
+            if name == "ZoneInfo":
+                def zi(i, a, k):
+                    key = self._str(a[0] if a else k.get("key"))
+                    if is_opaque(key):
+                        raise Unsupported("ZoneInfo(<non-concrete key>)")
+                    if key in self.known_zone_ids:
+                        return TZ("zone", key, "zoneinfo")
+                    raise AbsRaise("ZoneInfoNotFoundError", f"No time zone found with key {key}")
+                return Native("ZoneInfo", zi)
+            if name == "ZoneInfoNotFoundError":
+                return TypeTok("ZoneInfoNotFoundError")
+            raise Unsupported(f"zoneinfo.{name}")
         if o.name == "itertools":
             if name == "chain":
                 return NativeObj("itertools.chain")
@@ -2951,6 +2993,12 @@ class Interp:
                     return NativeObj("copy")
                 if r[1] in ("collections.namedtuple",):
                     return Native("namedtuple", self._namedtuple)
+                if r[1] == "pytz":
+                    return NativeObj("pytz")
+                if r[1] in ("pytz.utc", "pytz.UTC"):
+                    return TZ("utc", "UTC", "pytz")
+                if r[1] in ("zoneinfo", "backports.zoneinfo", "backports"):
+                    return NativeObj("zoneinfo" if r[1] != "backports" else "backports")
                 if r[1].startswith("codecs.BOM"):
                     import codecs as _codecs
                     v = getattr(_codecs, r[1].split(".", 1)[1], None)
